@@ -679,6 +679,14 @@ package xpath
 //@   ensures[walker-state@C12,C01] walkerOK(d.level, pos(node))
 //@   loop 0 invariant[walk@C12,C01] walkerOK(d.level, pos(node)) && ancn(pos(node), d.level) == old(ancn(pos(node), d.level)) && pre(pos(node)) >= old(pre(pos(node))) && (old(first) || !first)
 //@   loop 1 invariant[climb@C12,C01] walkerOK(d.level, pos(node)) && ancn(pos(node), d.level) == old(ancn(pos(node), d.level)) && pre(pos(node)) + size(pos(node)) > old(pre(pos(node))) && !first
+//@   uses tree-leaf tree-pre
+//@   let PRE0 = pre(pos(node))
+//@   let END0 = pre(ancn(pos(node), d.level)) + size(ancn(pos(node), d.level))
+//@   ensures[visits-every-node@C01,C12] result != nil && !(old(first) && pos(node) == old(pos(node))) ==> predv(ref(d), pos(node)) && forall(q, Pos, kind(q) != 2 && PRE0 < pre(q) && pre(q) < pre(pos(node)) ==> !predv(ref(d), q))
+//@   ensures[self-first@C01] result != nil && old(first) && pos(node) == old(pos(node)) ==> d.Self && predv(ref(d), pos(node))
+//@   ensures[visited-all@C01,C12] result == nil ==> forall(q, Pos, kind(q) != 2 && PRE0 < pre(q) && pre(q) < END0 ==> !predv(ref(d), q))
+//@   loop 0 invariant[visited@C01,C12] forall(q, Pos, kind(q) != 2 && PRE0 < pre(q) && pre(q) <= pre(pos(node)) ==> !predv(ref(d), q)) && pre(pos(node)) < END0 && (d.level == 0 ==> pos(node) == ancn(pos(node), d.level))
+//@   loop 1 invariant[next-is-plus-one@C01,C12] forall(q, Pos, kind(q) != 2 && PRE0 < pre(q) && pre(q) < pre(pos(node)) + size(pos(node)) ==> !predv(ref(d), q)) && pre(pos(node)) + size(pos(node)) <= END0 && (d.level == 0 ==> pre(pos(node)) + size(pos(node)) == END0)
 //@ func (*followingQuery).Select$1
 //@   props C15 C01 C12
 //@   theory nav for C01 C12
@@ -2267,7 +2275,7 @@ package xpath
 // The document tree behind the navigator (assumed: the client's NodeNavigator walks a finite
 // ordered tree). child(p, i) is the i-th child (1-based), idx its inverse, pre the pre-order
 // number, size the number of nodes of a subtree, depth the distance from the root.
-//@ axiom[tree-child] forall(p, Pos, forall(i, Int, 1 <= i && i <= nch(p) ==> parent(child(p, i)) == p && idx(child(p, i)) == i && !isroot(child(p, i)) && kind(child(p, i)) != 2 && depth(child(p, i)) == depth(p) + 1 && pre(child(p, i)) > pre(p) && pre(child(p, i)) + size(child(p, i)) <= pre(p) + size(p) && size(child(p, i)) >= 1, child(p, i)))
+//@ axiom[tree-child] forall(p, Pos, forall(i, Int, 1 <= i && i <= nch(p) ==> parent(child(p, i)) == p && idx(child(p, i)) == i && !isroot(child(p, i)) && kind(child(p, i)) != 2 && depth(child(p, i)) == depth(p) + 1 && pre(child(p, i)) > pre(p) && pre(child(p, i)) + size(child(p, i)) <= pre(p) + size(p) && size(child(p, i)) >= 1 && (i == 1 ==> pre(child(p, i)) == pre(p) + 1) && (i == nch(p) ==> pre(child(p, i)) + size(child(p, i)) == pre(p) + size(p)), child(p, i)))
 //@ axiom[tree-parent] forall(p, Pos, kind(parent(p)) != 2 && (!isroot(p) && kind(p) != 2 ==> 1 <= idx(p) && idx(p) <= nch(parent(p)) && child(parent(p), idx(p)) == p), parent(p))
 //@ axiom[tree-kinds] forall(p, Pos, 0 <= kind(p) && kind(p) <= 4 && (kind(p) == 0) == isroot(p) && nch(p) < 1073741824, kind(p))
 //@ axiom[tree-attr] forall(e, Pos, forall(i, Int, 1 <= i && i <= natt(e) ==> kind(attr(e, i)) == 2 && parent(attr(e, i)) == e && aidx(attr(e, i)) == i && kind(e) != 2, attr(e, i)))
@@ -2275,6 +2283,8 @@ package xpath
 //@ axiom[tree-depth] forall(p, Pos, 0 <= depth(p) && depth(p) < 1073741824 && size(p) >= 1 && nch(p) >= 0 && isroot(p) == (depth(p) == 0), depth(p))
 //@ define walkerOK(level, p) = 0 <= level && level <= depth(p) && (level > 0 ==> kind(p) != 2 && !isroot(p))
 //@ instance sibOrder(q, i) = 1 <= i && i < nch(q) ==> pre(child(q, i + 1)) == pre(child(q, i)) + size(child(q, i))
+//@ axiom[tree-leaf] forall(p, Pos, nch(p) == 0 ==> size(p) == 1, nch(p))
+//@ axiom[tree-pre] forall(p, Pos, forall(q, Pos, kind(p) != 2 && kind(q) != 2 && pre(p) == pre(q) ==> p == q, pre(p), pre(q)))
 //@ axiom[tree-up] forall(p, Pos, !isroot(p) ==> depth(parent(p)) == depth(p) - 1, parent(p))
 //@ instance ancnUp(p, n) = n >= 0 ==> ancn(p, n + 1) == parent(ancn(p, n))
 //@ instance ancnStep(p, n) = (n == 0 ==> ancn(p, n) == p) && (n > 0 ==> ancn(p, n) == ancn(parent(p), n - 1))
